@@ -19,7 +19,10 @@
                              modes are damped at every step size (L-stability on the real axis).
   * the linear algebra used by both implicit solvers is C16 (LU) and C17 (matrix storage).
   BDF: coefficients and Newton loop are not translated; stiff-check only.
+  * Radau control model (`Proofs/RadauLemmas.lean`, tied by X-radau): `RadauCtl.pass_singular` — SingularMatrix is reported only by
+    the sixth failure in a row; an accepted step resets the counter.
 -/
+import IvpModel.Proofs.RadauLemmas
 import IvpModel.Gen.Radau
 import Mathlib.Algebra.Order.Field.Basic
 import Mathlib.Tactic.Ring
